@@ -1,5 +1,7 @@
 """fidget-core/src/render/mod.rs RenderHandle: cached simplification keyed by trace,
 tape caches, recycle order (C04.R4, C10.R5)."""
+import re
+
 from . import ast as A
 
 RM = "fidget-core/src/render/mod.rs"
@@ -91,6 +93,33 @@ def _is_trace_copy(fn, e, depth=0):
     return False
 
 
+FRESH = "RenderHandle{shape:next,i_tape:None,f_tape:None,g_tape:None,next:None}"
+
+
+def _fresh_child(fn, e, depth=0, root=None):
+    """`Box::new(<a RenderHandle for the new shape with empty tape caches and no child>)`: the struct literal,
+    or `RenderHandle::new(next)` (whose body is that literal), possibly through a local"""
+    e = A.strip(e)
+    if depth > 3:
+        return False
+    n = A.ident(e)
+    if n:
+        lets = [s_ for s_ in A.find(fn["body"], "Let") if A.binding_name(s_["pat"]) == n and s_.get("init") is not None]
+        return len(lets) == 1 and _fresh_child(fn, lets[0]["init"], depth + 1, root)
+    t = str(A.ftxt(e))
+    if t == "Box::new(%s)" % FRESH:
+        return True
+    if t in ("Box::new(RenderHandle::new(next))", "Box::new(Self::new(next))"):
+        try:
+            nf = A.find_fn(RM, "new", self_ty="RenderHandle", root=root)
+        except A.AnchorLost:
+            return False
+        body = str(A.ftxt(nf["body"]))
+        p0 = [A.binding_name(i_["pat"]) for i_ in nf["sig"]["inputs"] if isinstance(i_, dict) and "pat" in i_]
+        return len(p0) == 1 and body in ("{Self{shape:%s,i_tape:None,f_tape:None,g_tape:None,next:None}}" % p0[0], "{RenderHandle{shape:%s,i_tape:None,f_tape:None,g_tape:None,next:None}}" % p0[0])
+    return False
+
+
 def _stored_key(fn):
     """the key expression of `self.next = Some((KEY, Box::new(RenderHandle {..})))`"""
     asg = [a for a in A.find(fn["body"], "Assign") if str(A.ftxt(a["left"])) == "self.next"]
@@ -99,7 +128,7 @@ def _stored_key(fn):
         r = A.strip(a["right"])
         if r.get("k") == "Call" and A.is_path(r["func"], "Some") and len(r["args"]) == 1:
             tup = A.strip(r["args"][0])
-            if tup.get("k") == "Tuple" and len(tup["elems"]) == 2 and str(A.ftxt(tup["elems"][1])).startswith("Box::new(RenderHandle{"):
+            if tup.get("k") == "Tuple" and len(tup["elems"]) == 2 and _fresh_child(fn, tup["elems"][1]):
                 out.append(tup["elems"][0])
     return out
 
@@ -147,7 +176,6 @@ def r_cache_key(rule, root=None):
             rule.bad("cache|compare", "the cached simplification must be discarded iff `&neighbor.0 != trace` (found conditions %s): reusing a child built for another trace evaluates the wrong tape" % conds, A.where(fn, tk))
     need = [
         ("a new child is simplified from this handle's shape with the current trace", "letnext=self.shape.simplify(trace,s,workspace).unwrap();"),
-        ("the new child starts with empty tape caches and no child of its own", "Box::new(RenderHandle{shape:next,i_tape:None,f_tape:None,g_tape:None,next:None})"),
         ("an unhelpful simplification is recycled and the parent used instead", "if(next.size()>=self.shape.size()){shape_storage.extend(next.recycle());self}"),
     ]
     # a new child is only built when no reusable one is cached - whichever branch that is
@@ -158,6 +186,10 @@ def r_cache_key(rule, root=None):
     else:
         rule.bad("cache|a new child is only built wh", "RenderHandle::simplify: a new child is only built when no reusable one is cached (the `self.shape.simplify(..)` call must sit under `self.next.is_none()`; found %s)" % cs_, A.where(fn))
     keys = _stored_key(fn)
+    if len(keys) == 1:
+        rule.ok("RenderHandle::simplify: the new child starts with empty tape caches and no child of its own", file=RM, line=fn["ln"])
+    else:
+        rule.bad("cache|the new child starts with em", "RenderHandle::simplify: the new child starts with empty tape caches and no child of its own (`Box::new(RenderHandle{shape:next, .. None})` or RenderHandle::new(next) not found as the stored child)", A.where(fn))
     if len(keys) != 1:
         rule.bad("cache|the key is stored next to th", "RenderHandle::simplify: the key is stored next to the child it was built for (`self.next = Some((key, Box::new(RenderHandle {..})))` not found)", A.where(fn))
     else:
@@ -189,13 +221,13 @@ def r_recycle(rule, root=None):
     seq = [txt(s) for s in fn["body"]["stmts"]]
     child = next((i for i, s in enumerate(seq) if "self.next.take()" in s and "shape.recycle(shape_storage,tape_storage)" in s), None)
     shape = next((i for i, s in enumerate(seq) if s.startswith("shape_storage.extend(self.shape.recycle())")), None)
-    tapes = [i for i, s in enumerate(seq) if "tape_storage.extend(" in s and "_tape.recycle()" in s]
+    tapes = [i for i, s in enumerate(seq) if "tape_storage.extend(" in s and ("_tape.recycle()" in s or re.search(r"self\.\w_tape\.take\(\)\.and_then\(\|(\w+)\|\1\.recycle\(\)\)", str(s)))]
     if child is not None and shape is not None and len(tapes) == 3 and child < min(tapes) and shape > max(tapes) and shape == len(seq) - 1:
         rule.ok("recycle: child first, then the three tape caches, the shape's own storage last", file=RM, line=fn["ln"])
     else:
         rule.bad("recycle|order", "RenderHandle::recycle must recycle the child first, then i/g/f tapes, then the shape's storage (tapes hold handles into it)", A.where(fn))
     for name in ("i_tape", "g_tape", "f_tape"):
-        if any("ifletSome(%s)=self.%s.take(){tape_storage.extend(%s.recycle());}" % (name, name, name) in s for s in seq):
+        if any("ifletSome(%s)=self.%s.take(){tape_storage.extend(%s.recycle());}" % (name, name, name) in s or re.fullmatch(r"tape_storage\.extend\(self\.%s\.take\(\)\.and_then\(\|(\w+)\|\1\.recycle\(\)\)\);" % name, str(s)) or re.fullmatch(r"ifletSome\((\w+)\)=self\.%s\.take\(\)\{tape_storage\.extend\(\1\.recycle\(\)\);\}" % name, str(s)) for s in seq):
             rule.ok("recycle: %s storage returns to the tape pool" % name)
         else:
             rule.bad("recycle|%s" % name, "recycle must return the %s storage to tape_storage" % name, A.where(fn))
